@@ -5,7 +5,15 @@ def run_mpi(ctx, exe, lines, np_, mpirun, shards=1, timeout=300, env=None, retri
     Unanswered/crashed cases are re-run (one mpirun, private session directory): a deterministic crash or hang of the
     driver reproduces and is reported, a launcher flake does not.  Retries are recorded in ctx['log']."""
     import tempfile, shutil
-    out = ctx["run_driver"](exe, lines, env_extra=env, prefix=mpirun + [str(np_)], timeout=timeout, shards=shards)
+    def strip(res):
+        """every complete record ends with the mark ' $'; a record without it was cut short -> unanswered"""
+        clean = {}
+        for k, v in res.items():
+            if v.startswith("CRASH"): clean[k] = v
+            elif v.endswith(" $"): clean[k] = v[:-2]
+            elif v == "$": clean[k] = ""
+        return clean
+    out = strip(ctx["run_driver"](exe, lines, env_extra=env, prefix=mpirun + [str(np_)], timeout=timeout, shards=shards))
     for attempt in range(retries):
         todo = [l for l in lines if (out.get(l.split(" ", 1)[0]) is None) or out[l.split(" ", 1)[0]].startswith("CRASH")]
         if not todo: break
@@ -14,8 +22,8 @@ def run_mpi(ctx, exe, lines, np_, mpirun, shards=1, timeout=300, env=None, retri
         ctx["log"].append(("mpirun retry np=%d attempt=%d cases=%d" % (np_, attempt + 1, len(todo)), 0))
         d = tempfile.mkdtemp(prefix="vq_ompi_")
         try:
-            again = ctx["run_driver"](exe, todo, env_extra=env, prefix=mpirun[:1] + ["--mca", "orte_tmpdir_base", d] + mpirun[1:] + [str(np_)],
-                                      timeout=timeout, shards=1)
+            again = strip(ctx["run_driver"](exe, todo, env_extra=env, prefix=mpirun[:1] + ["--mca", "orte_tmpdir_base", d] + mpirun[1:] + [str(np_)],
+                                            timeout=timeout, shards=1))
         finally:
             shutil.rmtree(d, ignore_errors=True)
         for l in todo:
